@@ -1,6 +1,6 @@
 (* C14 — virtual signs sharing a bus are isolated from each other. *)
 From Flipdot Require Import Tactics.
-From Flipdot Require Import Base Message Page SignType VSign CodeTable SignSpec VSignP.
+From Flipdot Require Import Base Message Page SignType VSign Controller CodeTable SignSpec VSignP ClosedLoopP WeaveP.
 Local Open Scope N_scope.
 
 (* ---------------------------------------------------------------------------------------- *)
@@ -94,3 +94,16 @@ Theorem C14_projection : forall b h b' rs,
        exists s' rs_i, vrun s h = Some (s', rs_i) /\ nth_error b' i = Some s'.
 Proof. exact bus_projection_bh. Qed.
 Print Assumptions C14_projection.
+
+(* Isolation seen from a controller program: if P is a program Q for sign [a] with conversations for OTHER signs woven
+   into it ([weave]: sends addressed to other signs, whose replies may steer further such sends but not Q), then on any
+   bus of signs with distinct addresses P does to sign [a] exactly what Q does to that sign alone, and ends as Q ends.
+   (Data chunks and chunk counts carry no address and are heard by every sign: they are not "for other signs".) *)
+Theorem C14_woven_conversations : forall (A : Type) a (P Q : prog A),
+  weave a P Q ->
+  forall b s, NoDup (map v_addr b) -> Forall VInv0 b -> target b a = Some s ->
+  exists b', run_bus P b = (b', snd (run_one Q s))
+    /\ target b' a = Some (fst (run_one Q s))
+    /\ Forall VInv0 b' /\ map v_addr b' = map v_addr b.
+Proof. exact @weave_lift. Qed.
+Print Assumptions C14_woven_conversations.
